@@ -52,6 +52,7 @@ func checkC13(c *Ctx, r *Report) {
 	c13Drop(c, r, vreach)
 	c13Locate(c, r)
 	c13NoVerdictCache(c, r)
+	importRulesFrom(c, r, "C16", func(c *Ctx, sub *Report) { c16ExtRefs(c, sub) }, "C13.EXTREFS", "every reference an extension brings along is resolved - and an undefined one refused - before the extension is merged (C16.EXTREFS): the schema object derived from the Query type is in no table, so references merged into it are never looked at by the table-wide pass", "C16.EXTREFS")
 	// LOOP / IFACE / UNION by reachability + structure
 	hd := c.fn("(*Directive).hasDirLoop")
 	r.check("C13.LOOP", "directive definition cycles are searched during validation", posFn(hd), hd != nil && vreach[hd], "hasDirLoop is not reachable from Root.validate")
